@@ -322,7 +322,8 @@ impl<'o> P<'o> {
                 // always print the `|` when the yes-branch is an alternation-free but group-wrapped
                 // alternation could be mis-split (finding F13): an explicit `|` keeps the generator
                 // independent of that defect
-                if **no != Empty || (contains_alt_shallow(y) && !self.opts.cond_omit_empty_no) {
+                // two empty branches are spelled `(?(1)|)`: `(?(1))` is the group-exists test
+                if **no != Empty || **y == Empty || (contains_alt_shallow(y) && !self.opts.cond_omit_empty_no) {
                     self.t("|");
                     self.print(no, 1);
                 }
@@ -333,7 +334,7 @@ impl<'o> P<'o> {
                 self.print(c, 0);
                 self.t(")");
                 self.print(y, 1);
-                if **no != Empty || (contains_alt_shallow(y) && !self.opts.cond_omit_empty_no) {
+                if **no != Empty || **y == Empty || (contains_alt_shallow(y) && !self.opts.cond_omit_empty_no) {
                     self.t("|");
                     self.print(no, 1);
                 }
